@@ -140,6 +140,11 @@ func (cc *canonCtx) osym(v ssa.Value) string {
 // helper's numeric parameters stand for the polynomials of the arguments, struct parameters for the argument's
 // fields, series and index parameters for the kernel's input and time index where the arguments are those.
 func (cc *canonCtx) withCallee(call *ssa.Call, depth int, body func(f *ssa.Function, ret *ssa.Return) (poly, bool)) (poly, bool) {
+	return cc.withCalleeAt(call, depth, nil, body)
+}
+
+// withCalleeAt: as withCallee, for one chosen return statement of a helper that has several.
+func (cc *canonCtx) withCalleeAt(call *ssa.Call, depth int, at *ssa.Return, body func(f *ssa.Function, ret *ssa.Return) (poly, bool)) (poly, bool) {
 	f := call.Common().StaticCallee()
 	if f == nil || f.Blocks == nil || !InModule(f) || call.Common().IsInvoke() || depth > 30 || strings.Count(cc.inl, "/") > 3 {
 		return nil, false
@@ -148,6 +153,9 @@ func (cc *canonCtx) withCallee(call *ssa.Call, depth int, body func(f *ssa.Funct
 		return nil, false
 	}
 	rets := returnsOf(f)
+	if at != nil {
+		rets = []*ssa.Return{at}
+	}
 	if len(rets) != 1 || len(f.Params) != len(call.Common().Args) {
 		return nil, false
 	}
@@ -522,7 +530,46 @@ func checkIdentityTable(p *Program, r *Report, rule string, table map[string]ide
 		if len(loops) == 1 {
 			ind = loopInduction(loops[0])
 		}
+		// the time loop may live in a visiting helper (`walkSeries(n, func(idx []int) { … })`): the timestep is then
+		// the closure's body and its parameter the time index
+		body := k
+		var bodyIdx *ssa.Parameter
+		var walkCall ssa.CallInstruction
+		if len(loops) == 0 {
+			for _, c := range callsIn(k) {
+				h := c.Common().StaticCallee()
+				if h == nil || h.Blocks == nil || !InModule(h) || len(h.Params) != len(c.Common().Args) {
+					continue
+				}
+				fi, ok := walkHelperShape(p, h)
+				if !ok {
+					continue
+				}
+				if mc := closureValueOf(c.Common().Args[fi]); mc != nil {
+					if fn, _ := mc.Fn.(*ssa.Function); fn != nil && len(fn.Params) == 1 && len(findLoops(fn)) == 0 {
+						body, bodyIdx, walkCall = fn, fn.Params[0], c
+					}
+				}
+			}
+		}
+		// kv: a value of the closure in the kernel's terms (captured variables are the kernel's own)
+		kv := func(v ssa.Value) ssa.Value {
+			if v == nil {
+				return nil
+			}
+			if u, ok := v.(*ssa.UnOp); ok && u.Op == token.MUL {
+				if _, isFree := u.X.(*ssa.FreeVar); isFree {
+					if vs := resolveCapturedLoad(u); len(vs) == 1 {
+						return origin1(vs[0])
+					}
+				}
+			}
+			return origin1(v)
+		}
 		atLoopIndexVal := func(a ssa.Value, at ssa.Instruction) bool {
+			if bodyIdx != nil {
+				return origin1(a) == ssa.Value(bodyIdx)
+			}
 			if ind == nil {
 				return false
 			}
@@ -537,7 +584,7 @@ func checkIdentityTable(p *Program, r *Report, rule string, table map[string]ide
 		}
 		cc.inIdx, cc.atIndex = inIdx, atLoopIndexVal
 		// canonical names for input reads
-		for _, c := range callsIn(k) {
+		for _, c := range callsIn(body) {
 			cv, ok := c.(*ssa.Call)
 			if !ok {
 				continue
@@ -546,16 +593,16 @@ func checkIdentityTable(p *Program, r *Report, rule string, table map[string]ide
 			if nm != "Get" && nm != "Get1" {
 				continue
 			}
-			if i, ok := inIdx[origin1(recvOf(c.Common()))]; ok && atLoopIndex(c) {
+			if i, ok := inIdx[kv(recvOf(c.Common()))]; ok && atLoopIndex(c) {
 				cc.names[cv] = fmt.Sprintf("in%d", i)
 			}
 		}
 		// write sites
 		var sites []writeSite
-		for ci, c := range callsIn(k) {
+		for ci, c := range callsIn(body) {
 			nm := callName(c.Common())
 			if nm == "Set" || nm == "Set1" {
-				if oi, ok := outIdx[origin1(recvOf(c.Common()))]; ok && atLoopIndex(c) {
+				if oi, ok := outIdx[kv(recvOf(c.Common()))]; ok && atLoopIndex(c) {
 					sites = append(sites, writeSite{oi: oi, val: callArgs(c.Common())[1], at: c})
 				}
 				continue
@@ -629,8 +676,12 @@ func checkIdentityTable(p *Program, r *Report, rule string, table map[string]ide
 		}
 		writes := map[int][]poly{}
 		var wpos = map[int]ssa.Instruction{}
+		siteAlts := map[int][]altVal{} // per output: every value a write site can store, with the driver test on its way
 		for _, w := range sites {
-			writes[w.oi] = append(writes[w.oi], cc.expandSite(w))
+			for _, av := range cc.siteAlternatives(w) {
+				writes[w.oi] = append(writes[w.oi], av.p)
+				siteAlts[w.oi] = append(siteAlts[w.oi], av)
+			}
 			wpos[w.oi] = w.at
 		}
 		if len(writes) == 0 {
@@ -639,7 +690,39 @@ func checkIdentityTable(p *Program, r *Report, rule string, table map[string]ide
 		}
 		// every iteration writes every output the identities speak about (a skipped write leaves the zero
 		// value in place and breaks the identity for that timestep)
-		if len(loops) == 0 {
+		if len(loops) == 0 && bodyIdx != nil {
+			// the timestep is the visiting closure's body: every way through it writes every specified output
+			var ois []int
+			for oi := range writes {
+				ois = append(ois, oi)
+			}
+			sort.Ints(ois)
+			for _, oi := range ois {
+				hasW := map[*ssa.BasicBlock]bool{}
+				for _, w := range sites {
+					if w.oi == oi {
+						hasW[w.at.Block()] = true
+					}
+				}
+				skipped := false
+				if !hasW[body.Blocks[0]] {
+					reach := reachable(body.Blocks[0], func(from *ssa.BasicBlock, i int) bool { return hasW[from.Succs[i]] })
+					for _, ret := range returnsOf(body) {
+						if reach[ret.Block()] && !hasW[ret.Block()] {
+							skipped = true
+						}
+					}
+				}
+				okey := fmt.Sprintf("%s:out%d:every-step", key, oi)
+				if skipped {
+					r.Fail(rule, okey, p.Pos(body.Pos()), fmt.Sprintf("%s (%s): some path through a timestep does not write output `%s`: it keeps its zero value for that step and the identity fails there", m.Name, spec.note, m.Outputs[oi]))
+				} else {
+					r.OK(rule, fmt.Sprintf("%s: output `%s` is written on every path through a timestep", key, m.Outputs[oi]))
+				}
+			}
+		}
+		_ = walkCall
+		if len(loops) == 0 && bodyIdx == nil {
 			// the time loop lives in a mapping helper, whose single store lies on every path round its loop (mapHelperShape)
 			var ois []int
 			for oi := range mappedBy {
@@ -723,24 +806,9 @@ func checkIdentityTable(p *Program, r *Report, rule string, table map[string]ide
 			}
 			// masks: the non-zero case is written exactly when the driver (input 0) is positive
 			if bad == "" && len(alts) == 2 && alts[1] == "0" {
-				for _, ws := range sites {
-					if ws.oi != oi {
-						continue
-					}
-					w := cc.expandSite(ws)
-					nonZero := !polyEqual(w, poly{})
-					pos, found := false, false
-					for _, g := range guardsAt(ws.at.Block()) {
-						bo, ok := g.Cond.(*ssa.BinOp)
-						if !ok || bo.Op.String() != ">" {
-							continue
-						}
-						if cc.names[bo.X] == "in0" {
-							found = true
-							pos = g.Val
-						}
-					}
-					if !found || pos != nonZero {
+				for _, av := range siteAlts[oi] {
+					nonZero := !polyEqual(av.p, poly{})
+					if !av.found || av.pos != nonZero {
 						bad = "the value is passed through on the wrong side of the driver test (input 0 > threshold): the mask is inverted or unconditional"
 					}
 				}
@@ -1007,4 +1075,139 @@ func checkEarlyReturns(p *Program, r *Report, rule, key string, m *Model, k *ssa
 			}
 		}
 	}
+}
+
+// altVal: one value a write site can store, and the test of the driver (input 0 > threshold) on the way to it.
+type altVal struct {
+	p          poly
+	found, pos bool
+}
+
+// driverTest: among the guards, a test `x > c` whose x is input 0 at this timestep.
+func (cc *canonCtx) driverTest(gs []Guard) (found, pos bool) {
+	for _, g := range gs {
+		bo, ok := g.Cond.(*ssa.BinOp)
+		if !ok || bo.Op.String() != ">" {
+			continue
+		}
+		if cc.names[bo.X] == "in0" || polyEqual(cc.expand(bo.X, 0), poly{"in0": 1}) {
+			found, pos = true, g.Val
+		}
+	}
+	return
+}
+
+// siteAlternatives: the values a write site can store — one per way into the merge if the value written is a phi
+// of the kernel, one per return statement if it is the result of a scalar helper with several returns
+// (`func passedLoad(f, l, k float64) float64 { if f > eps { return l * k }; return 0 }`), else the value itself.
+func (cc *canonCtx) siteAlternatives(w writeSite) []altVal {
+	if w.subst != nil {
+		return []altVal{cc.siteAlt(w, w.at.Block())}
+	}
+	v := w.val
+	if cv, ok := v.(*ssa.Convert); ok {
+		v = cv.X
+	}
+	switch x := v.(type) {
+	case *ssa.Phi:
+		var out []altVal
+		for i, e := range x.Edges {
+			if i >= len(x.Block().Preds) {
+				continue
+			}
+			pr := x.Block().Preds[i]
+			gs := guardsAt(pr)
+			if iff, ok := pr.Instrs[len(pr.Instrs)-1].(*ssa.If); ok && pr.Succs[0] != pr.Succs[1] {
+				c, val := normCond(iff.Cond, pr.Succs[0] == x.Block())
+				gs = append(gs, Guard{Cond: c, Val: val, If: iff})
+			}
+			av := altVal{p: cc.expand(e, 0)}
+			av.found, av.pos = cc.driverTest(gs)
+			out = append(out, av)
+		}
+		if len(out) > 0 {
+			return out
+		}
+	case *ssa.Call:
+		f := x.Common().StaticCallee()
+		if f != nil && f.Blocks != nil && InModule(f) && len(returnsOf(f)) > 1 && len(findLoops(f)) == 0 && x.Common().Signature().Results().Len() == 1 {
+			var out []altVal
+			okAll := true
+			for _, ret := range returnsOf(f) {
+				ret := ret
+				var av altVal
+				_, ok := cc.withCalleeAt(x, 0, ret, func(_ *ssa.Function, rr *ssa.Return) (poly, bool) {
+					if b, isB := rr.Results[0].Type().Underlying().(*types.Basic); !isB || b.Info()&types.IsFloat == 0 {
+						return nil, false
+					}
+					av.p = cc.expand(rr.Results[0], 1)
+					av.found, av.pos = cc.driverTest(guardsAt(rr.Block()))
+					return av.p, true
+				})
+				if !ok {
+					okAll = false
+					break
+				}
+				out = append(out, av)
+			}
+			if okAll && len(out) > 0 {
+				return out
+			}
+		}
+	}
+	return []altVal{cc.siteAlt(w, w.at.Block())}
+}
+
+func (cc *canonCtx) siteAlt(w writeSite, b *ssa.BasicBlock) altVal {
+	av := altVal{p: cc.expandSite(w)}
+	av.found, av.pos = cc.driverTest(guardsAt(b))
+	return av
+}
+
+// walkHelperShape: h(…, n int, …, step func(idx []int)) with one counting loop `for i := 0; i < n; i++` whose body
+// stores i into element 0 of a one-element vector of its own and calls step with that vector on every iteration:
+// the position of step among h's parameters.
+func walkHelperShape(p *Program, h *ssa.Function) (int, bool) {
+	loops := findLoops(h)
+	if len(loops) != 1 {
+		return 0, false
+	}
+	l := loops[0]
+	ind, lo, _, ok := countingLoop(l)
+	if !ok {
+		return 0, false
+	}
+	if c, isC := constInt(lo); !isC || c != 0 {
+		return 0, false
+	}
+	eff := nil2eff(p)
+	fi := -1
+	for _, c := range callsIn(h) {
+		prm, isPrm := c.Common().Value.(*ssa.Parameter)
+		if !isPrm || c.Common().IsInvoke() || !l.Blocks[c.Block()] || len(c.Common().Args) != 1 {
+			continue
+		}
+		a := c.Common().Args[0]
+		atInd := false
+		if isIntVec(a.Type()) {
+			vals, _, unk := vecElemAt(eff, origin1OrSelf(a), 0, c)
+			atInd = unk == "" && len(vals) == 1 && origin1OrSelf(vals[0]) == ssa.Value(ind)
+		} else {
+			atInd = origin1OrSelf(a) == ssa.Value(ind)
+		}
+		if !atInd {
+			return 0, false
+		}
+		for _, pr := range l.Header.Preds {
+			if l.Blocks[pr] && !c.Block().Dominates(pr) {
+				return 0, false
+			}
+		}
+		for i, q := range h.Params {
+			if q == prm {
+				fi = i
+			}
+		}
+	}
+	return fi, fi >= 0
 }
